@@ -307,7 +307,7 @@ fn pre(ctx: &Ctx) {
 pub fn property() -> Property {
     Property {
         id: "C08",
-        rule: "cfg: ordered list of 0..8 distinct category names each with 0..8 (key, value) lines (keys repeat within and across categories, empty keys/values allowed) over printable ASCII + some UTF-8 minus < > TAB CR LF NUL; canonical text '\\r\\n<cat>\\r\\n' + 'key\\tvalue\\r\\n'... + NUL produced by the harness; checks: parse(canonical) = model in order; write(parse(canonical)) = canonical bytes; writing a directly constructed value = canonical; set_value histories of 0..8 calls (present, absent, duplicated keys) compared with the model after every call; has_key / has_category agree with the content; the edited file writes canonically and re-parses. exl: version i32, 0..30 (name, i32) rows, optional '#' comment rows and CRLF line ends on the input side; parse/write/parse and contains. The checked-in FFXIV.cfg and test.exl must round-trip byte for byte. Non-trivial: cfg with >= 2 categories, an empty one, a duplicated key and >= 1 effective set_value; exl with >= 2 entries. Distinct by content hash.",
+        rule: "[round 8: one value in forty, one key in 150 and one category name in 100 is 1 000..65 540 bytes long] cfg: ordered list of 0..8 distinct category names each with 0..8 (key, value) lines (keys repeat within and across categories, empty keys/values allowed) over printable ASCII + some UTF-8 minus < > TAB CR LF NUL; canonical text '\\r\\n<cat>\\r\\n' + 'key\\tvalue\\r\\n'... + NUL produced by the harness; checks: parse(canonical) = model in order; write(parse(canonical)) = canonical bytes; writing a directly constructed value = canonical; set_value histories of 0..8 calls (present, absent, duplicated keys) compared with the model after every call; has_key / has_category agree with the content; the edited file writes canonically and re-parses. exl: version i32, 0..30 (name, i32) rows, optional '#' comment rows and CRLF line ends on the input side; parse/write/parse and contains. The checked-in FFXIV.cfg and test.exl must round-trip byte for byte. Non-trivial: cfg with >= 2 categories, an empty one, a duplicated key and >= 1 effective set_value; exl with >= 2 entries. Distinct by content hash.",
         assumptions: &["category names are distinct; names and values avoid the structural characters", "EXL names do not start with '#', are not 'EXLT' and contain no comma"],
         pre: Some(pre),
         post: None,
